@@ -26,14 +26,20 @@ Prims == << [kw |-> Cp("-true"), args |-> <<>>],
             [kw |-> Cp("-uid"), args |-> <<Arg("+5", FALSE)>>],
             [kw |-> Cp("-perm"), args |-> <<Arg("u+x", TRUE)>>],
             [kw |-> Cp("-printf"), args |-> <<Arg("%p\\n", TRUE)>>],
-            [kw |-> Cp("-xattr-match"), args |-> <<Arg("a", TRUE), Arg("b.c", TRUE)>>] >>
+            [kw |-> Cp("-xattr-match"), args |-> <<Arg("a", TRUE), Arg("b.c", TRUE)>>],
+            \* 7, 8: scan-wide options standing INSIDE the expression (an operand like any other for the layout rules:
+            \* parentheses with or without inner blanks around it, any blank before it; seed C06-i)
+            [kw |-> Cp("-depth"), args |-> <<>>],
+            [kw |-> Cp("-threads"), args |-> <<Arg("4", FALSE)>>] >>
 Leaf(n) == [k |-> "leaf", id |-> n]
 Leaves6 == {Leaf(n) : n \in 1..6}
 BaseSet == Leaves6 \cup {NNot(a) : a \in Leaves6} \cup {NNot(NNot(a)) : a \in Leaves6}
            \cup {NAnd(a, b) : a, b \in Leaves6} \cup {NOr(a, b) : a, b \in Leaves6} \cup {NList(a, b) : a, b \in Leaves6}
 BigBases == << NList(NNot(NOr(Leaf(2), Leaf(3))), NAnd(Leaf(4), Leaf(5))),
                NAnd(NAnd(Leaf(1), NOr(Leaf(6), Leaf(2))), NNot(Leaf(3))),
-               NOr(NAnd(Leaf(2), Leaf(2)), NList(Leaf(5), NNot(NNot(Leaf(6))))) >>
+               NOr(NAnd(Leaf(2), Leaf(2)), NList(Leaf(5), NNot(NNot(Leaf(6))))),
+               NAnd(Leaf(2), Leaf(7)), NAnd(Leaf(3), Leaf(8)), NList(Leaf(1), Leaf(7)), NOr(Leaf(5), NNot(Leaf(7))),
+               NOr(Leaf(2), NAnd(Leaf(8), Leaf(4))) >>
 \* an arbitrary but fixed enumeration of the bases
 RECURSIVE SetToSeq(_)
 SetToSeq(S) == IF S = {} THEN <<>> ELSE LET x == CHOOSE x \in S : TRUE IN <<x>> \o SetToSeq(S \ {x})
